@@ -108,6 +108,10 @@ func opsExec(raw json.RawMessage, hist []string, deep bool) *bfsResult {
 		res.fail(sig+"/after-"+last, what)
 		return res
 	}
+	if sig, what := w.heldWriteViolation(); sig != "" {
+		res.fail(sig, what)
+		return res
+	}
 	if a.ArchiveCheck {
 		code, body := w.httpDo("GET", "/api/v1/archive", nil)
 		if code != 200 {
